@@ -1,7 +1,8 @@
 (* C01 — B-tree is a sorted set under every operation history.  Property theorems only.
 
-   Setting (see BTreeModel.v / BTreeProofsBase.v / BTreeProofsHist.v): (L, I) = (ZIX_BTREE_LEAF_VALS,
-   ZIX_BTREE_INODE_VALS) with I = L / 2 and 3 <= I (every page size >= 64 bytes with 8-byte pointers); elements are
+   Setting (see BTreeModel.v / BTreeProofsBase.v / BTreeProofsHist.v): (L, I, H) = (ZIX_BTREE_LEAF_VALS,
+   ZIX_BTREE_INODE_VALS, ZIX_BTREE_MAX_HEIGHT) with I = L / 2, 3 <= I (every page size >= 64 bytes with 8-byte
+   pointers) and 1 <= H; elements are
    opaque and ordered by an integer rank (any total preorder on the finitely many elements of a history);
    allocation requests are answered by an arbitrary script [o : list bool]; a history is a list of calls
    [OInsert o e | ORemove e | OFind e | OClear d]; [run] executes it on the model from the empty tree.
@@ -19,24 +20,41 @@ Import ListNotations.
 (* the invariant holds after every history, whatever the allocation scripts *)
 Theorem btree_inv_reachable :
   forall (elt : Type) (rank : elt -> Z) (dflt : elt) (L I : nat), I = L / 2 -> 3 <= I ->
-  forall ops : list (op elt), Inv rank L I (run rank dflt L I ops).
+  forall H : nat, 1 <= H ->
+  forall ops : list (op elt), Inv rank L I (run rank dflt L I H ops).
 Proof. exact inv_reachable. Qed.
 Print Assumptions btree_inv_reachable.
 
-(* insert: SUCCESS iff no element of that rank is stored (then the listing is the spec's), EXISTS otherwise and
-   NO_MEM only if an allocation failed -- listing unchanged in both cases although pages may have been split;
-   the invariant (hence the size field) is re-established; the comparator only ever sees stored elements *)
+(* insert: SUCCESS iff no element of that rank is stored (then the listing is the spec's), EXISTS otherwise, NO_MEM
+   only if an allocation failed, OVERFLOW only when the root page is full and the tree already has H levels (fix
+   1a03612: growth beyond ZIX_BTREE_MAX_HEIGHT is refused before anything is touched) -- listing unchanged in the last
+   three cases although pages may have been split; the invariant (hence the size field) is re-established; the
+   comparator only ever sees stored elements; the tree never grows beyond H levels; and below the capacity
+   cap(L,I,H) = 2*((L+1)/2)*((I+1)/2)^(H-1) - 1 (the least size of a tree with a full root and H levels) OVERFLOW is
+   impossible, so there status and listing are exactly the sorted-set spec's.
+   FULL STATEMENT of the property ("SUCCESS iff the key was absent" for every size) does not hold: see
+   btree_insert_overflow_refuted. *)
 Theorem btree_insert_refines :
   forall (elt : Type) (rank : elt -> Z) (dflt : elt) (L I : nat), I = L / 2 -> 3 <= I ->
-  forall (o : list bool) (t : tree elt) (e : elt), Inv rank L I t ->
-    let '(st, t', o', lg) := insert rank dflt L I o t e in
+  forall (H : nat) (o : list bool) (t : tree elt) (e : elt), Inv rank L I t ->
+    let '(st, t', o', lg) := insert rank dflt L I H o t e in
     Inv rank L I t' /\
-    (st = SUCCESS \/ st = EXISTS \/ st = NO_MEM) /\
-    (st <> NO_MEM -> (st, elements (root t')) = set_insert elt rank (elements (root t)) e) /\
+    (st = SUCCESS \/ st = EXISTS \/ st = NO_MEM \/ st = OVERFLOW) /\
+    (st <> NO_MEM -> st <> OVERFLOW -> (st, elements (root t')) = set_insert elt rank (elements (root t)) e) /\
     (st = NO_MEM -> elements (root t') = elements (root t)) /\
     ((forall b, In b o -> b = true) -> st <> NO_MEM) /\
-    (forall x, In x lg -> In x (elements (root t))).
-Proof. exact insert_refines. Qed.
+    (forall x, In x lg -> In x (elements (root t))) /\
+    (st = OVERFLOW -> t' = t /\ o' = o /\ lg = [] /\ is_full L I (root t) = true /\ H <= height (root t)) /\
+    (height (root t) <= H -> height (root t') <= H) /\
+    (1 <= H -> length (elements (root t)) < 2 * ((L + 1) / 2) * ((I + 1) / 2) ^ (H - 1) - 1 -> st <> OVERFLOW).
+Proof.
+  intros elt rank dflt L I HI HI3 H o t e Hinv.
+  pose proof (insert_refines elt rank dflt L I HI HI3 H o t e Hinv) as R.
+  pose proof (fun HH => no_overflow_below_cap elt rank dflt L I HI HI3 H HH o t e Hinv) as N.
+  destruct (insert rank dflt L I H o t e) as [[[st t'] o'] lg]. cbn [fst] in N.
+  destruct R as (R1 & R2 & R3 & R4 & R5 & R6 & R7 & R8).
+  repeat (split; [assumption|]). exact N.
+Qed.
 Print Assumptions btree_insert_refines.
 
 (* remove: SUCCESS with the stored element of that rank, or NOT_FOUND with the listing unchanged (pages may have
@@ -71,17 +89,20 @@ Theorem btree_clear_refines :
 Proof. exact clear_refines. Qed.
 Print Assumptions btree_clear_refines.
 
-(* along a whole history the listing follows the sorted-list spec (an insert that reported NO_MEM leaves the set
-   alone); without allocation failures it is the plain fold of set_insert / set_remove / clear *)
+(* along a whole history the listing follows the sorted-list spec (an insert that reported NO_MEM or OVERFLOW leaves
+   the set alone); without allocation failures and below the capacity it is the plain fold of set_insert /
+   set_remove / clear *)
 Theorem btree_history_refines :
   forall (elt : Type) (rank : elt -> Z) (dflt : elt) (L I : nat), I = L / 2 -> 3 <= I ->
+  forall H : nat, 1 <= H ->
   forall ops : list (op elt),
-    elements (root (run rank dflt L I ops)) = spec_run_from rank dflt L I empty_tree [] ops /\
-    (Forall no_fail ops -> elements (root (run rank dflt L I ops)) = fold_left (plain_step rank) ops []).
+    elements (root (run rank dflt L I H ops)) = spec_run_from rank dflt L I H empty_tree [] ops /\
+    (Forall no_fail ops -> below_cap rank L I H [] ops ->
+     elements (root (run rank dflt L I H ops)) = fold_left (plain_step rank) ops []).
 Proof.
-  intros elt rank dflt L I HI HI3 ops. split.
-  - exact (run_refines_gen elt rank dflt L I HI HI3 ops).
-  - exact (run_refines elt rank dflt L I HI HI3 ops).
+  intros elt rank dflt L I HI HI3 H HH ops. split.
+  - exact (run_refines_gen elt rank dflt L I HI HI3 H HH ops).
+  - exact (run_refines elt rank dflt L I HI HI3 H HH ops).
 Qed.
 Print Assumptions btree_history_refines.
 
@@ -118,35 +139,45 @@ Theorem btree_find_cost :
 Proof. exact find_cost. Qed.
 Print Assumptions btree_find_cost.
 
-(* FULL STATEMENT (does not hold, see btree_depth_refuted):
-     forall H, 1 <= H -> forall ops p, valid (root (run ops)) p -> length p <= H
-   i.e. no element is ever deeper than ZIX_BTREE_MAX_HEIGHT levels.  What holds is the bound below the capacity
-   cap(L,I,H) = 2*m*c^(H-1) - 1, the least size at which a tree of height H+1 exists: *)
-Theorem btree_depth_le_max_height_partial :
+(* no element is ever deeper than ZIX_BTREE_MAX_HEIGHT levels: every tree reachable by a history has at most H levels
+   and every valid iterator path has at most H frames (level < H), with no hypothesis on the size (since fix 1a03612
+   insert refuses to grow a tree that already has H levels) *)
+Theorem btree_depth_le_max_height :
   forall (elt : Type) (rank : elt -> Z) (dflt : elt) (L I : nat), I = L / 2 -> 3 <= I ->
-  forall (t : tree elt) (H : nat), Inv rank L I t -> 1 <= H ->
-    length (elements (root t)) < 2 * ((L + 1) / 2) * ((I + 1) / 2) ^ (H - 1) - 1 ->
-    height (root t) <= H /\ forall p, valid (root t) p -> length p <= H.
-Proof.
-  intros elt rank dflt L I HI HI3 t H Hinv HH Hsz. split.
-  - exact (height_le_max elt rank dflt L I HI HI3 t H Hinv HH Hsz).
-  - exact (depth_le_max elt rank dflt L I HI HI3 t H Hinv HH Hsz).
-Qed.
-Print Assumptions btree_depth_le_max_height_partial.
+  forall H : nat, 1 <= H ->
+  forall ops : list (op elt),
+    height (root (run rank dflt L I H ops)) <= H /\
+    forall p, valid (root (run rank dflt L I H ops)) p -> length p <= H.
+Proof. exact depth_reachable. Qed.
+Print Assumptions btree_depth_le_max_height.
 
-(* page size 64: (L, I) = (6, 3), ZIX_BTREE_MAX_HEIGHT = 6.  After inserting 1..260 in ascending order (no
-   allocation failure) the tree has height 7: zix_btree_begin must push a frame at level 6 = MAX_HEIGHT. *)
-Theorem btree_depth_refuted :
+(* independently of H: a tree with fewer than cap(L,I,K) elements has at most K levels (from the height law) *)
+Theorem btree_height_bound_by_size :
+  forall (elt : Type) (rank : elt -> Z) (dflt : elt) (L I : nat), I = L / 2 -> 3 <= I ->
+  forall (t : tree elt) (K : nat), Inv rank L I t -> 1 <= K ->
+    length (elements (root t)) < 2 * ((L + 1) / 2) * ((I + 1) / 2) ^ (K - 1) - 1 ->
+    height (root t) <= K.
+Proof. exact height_le_max. Qed.
+Print Assumptions btree_height_bound_by_size.
+
+(* page size 64: (L, I, H) = (6, 3, 6).  After inserting 1..259 in ascending order (no allocation failure) the tree
+   has 6 levels and a full root; the insert of the absent key 260 is refused with OVERFLOW although the sorted-set
+   spec says SUCCESS.  A tree of bounded height with small pages cannot hold arbitrarily many elements, so the clause
+   "insert returns SUCCESS iff the key was absent" cannot hold for every accepted configuration and every size. *)
+Theorem btree_insert_overflow_refuted :
   exists ops : list (op Z),
     Forall no_fail ops /\
-    let t := run (fun x : Z => x) 0%Z 6 3 ops in
-    height (root t) = 7 /\ exists p, btree_begin t = IAt p /\ length p = 7.
+    let t := run (fun x : Z => x) 0%Z 6 3 6 ops in
+    set_find Z (fun x : Z => x) (elements (root t)) 260%Z = None /\
+    fst (fst (fst (insert (fun x : Z => x) 0%Z 6 3 6 [] t 260%Z))) = OVERFLOW /\
+    fst (set_insert Z (fun x : Z => x) (elements (root t)) 260%Z) = SUCCESS /\
+    length (elements (root t)) = 259 /\ height (root t) = 6.
 Proof.
-  exists (map (fun k => OInsert [] (Z.of_nat k)) (seq 1 260)). split.
+  exists (map (fun k => OInsert [] (Z.of_nat k)) (seq 1 259)). split.
   - apply Forall_forall. intros x Hx. apply in_map_iff in Hx as [k [<- _]]. cbn. intros b [].
-  - vm_compute. split; [reflexivity|]. eexists. split; reflexivity.
+  - vm_compute. repeat split.
 Qed.
-Print Assumptions btree_depth_refuted.
+Print Assumptions btree_insert_overflow_refuted.
 
 (* non-vacuity: the four configurations meet the hypotheses; cap(6,3,6) = 191 and cap(510,255,6) > 10^13 *)
 Example configs_ok : (3 = 6 / 2 /\ 3 <= 3) /\ (7 = 14 / 2 /\ 3 <= 7) /\ (15 = 30 / 2 /\ 3 <= 15) /\ (255 = 510 / 2 /\ 3 <= 255).
@@ -154,7 +185,7 @@ Proof. repeat split; try reflexivity; repeat constructor. Qed.
 Example cap_page64 : 2 * ((6 + 1) / 2) * ((3 + 1) / 2) ^ (6 - 1) - 1 = 191.
 Proof. reflexivity. Qed.
 Example history_example :
-  let t := run (fun x : Z => x) 0%Z 6 3
+  let t := run (fun x : Z => x) 0%Z 6 3 6
              (map (fun k => OInsert [] (Z.of_nat k)) (seq 1 40) ++ [ORemove 8%Z; OFind 9%Z; ORemove 8%Z]) in
   elements (root t) = map Z.of_nat (seq 1 7 ++ seq 9 32) /\ height (root t) = 3 /\ size t = 39%Z.
 Proof. vm_compute. repeat split. Qed.
